@@ -11,7 +11,12 @@ def main():
     lib()
     from bounded.checks import CHECKS
     ck = Checker(pid, tier, int(os.environ.get("VERIF_SEED", "0") or 0))
-    rule, bound = CHECKS[pid](ck)
+    fn = CHECKS.get(pid)
+    if fn is None:
+        # per-property module bounded/cNN.py exposing check(ck) -> (rule, bound)
+        import importlib
+        fn = importlib.import_module("bounded." + pid.lower()).check
+    rule, bound = fn(ck)
     res = ck.finish(out, rule, bound)
     print("%s bounded: evaluations=%d distinct=%d failures=%s %.1fs" % (pid, res["evaluations"], res["distinct_nontrivial"], {f["class"]: f["count"] for f in res["failures"]}, res["seconds"]))
     return 1 if res["failures"] else 0
